@@ -15,7 +15,7 @@ func notYet(id string) {
 }
 
 func init() {
-	for _, id := range []string{"C03", "C04", "C05", "C08", "C10", "C11"} {
+	for _, id := range []string{"C03", "C04", "C05", "C08"} {
 		notYet(id)
 	}
 	claim("C06", "other",
@@ -68,4 +68,6 @@ func init() {
 	claim("C07", "other",
 		"(in progress) IsIdent/IsURLUnquoted reuse the lexer's scanners", "", "call-shape rule on SSA", "DESIGN.md 4/C07", "in progress")
 	claim("C02", "other", "(in progress) cursor engine", "", "abstract interpretation", "DESIGN.md 4/C02", "in progress")
+	claim("C10", "other", "(in progress)", "", "abstract interpretation", "DESIGN.md 4/C10", "in progress")
+	claim("C11", "other", "(in progress)", "", "abstract interpretation", "DESIGN.md 4/C11", "in progress")
 }
